@@ -618,7 +618,9 @@ func (g *lgen) gen(h uint64) *ltx {
 	}
 	encData, err := rlp.EncodeToBytes(data)
 	if err != nil {
-		panic(err)
+		// a value the generator made negative (e.g. a balance-relative amount of an empty account) has no encoding:
+		// such a transaction cannot exist on the wire; draw another one
+		return g.gen(h)
 	}
 	tx := transaction.Transaction{Nonce: nonce, ChainID: chainID, GasPrice: gp, GasCoin: gas, Type: typ, Data: encData, Payload: payload, ServiceData: service, SignatureType: transaction.SigTypeSingle}
 	var sigEnc []*big.Int
